@@ -3,6 +3,8 @@ CONSTANTS
   SR = 3
   SL = 5
   MaxResets = 2
+  MaxCopies = 1
   Bug = "none"
 INVARIANTS LawTransparentH LawResetFresh LawResetClears LawCursorH
+PROPERTY LawCopyKeeps
 CHECK_DEADLOCK FALSE
